@@ -3,8 +3,10 @@ package exprgen
 import (
 	"fmt"
 	"go/ast"
+	"go/constant"
 	"go/token"
 	"go/types"
+	"math/big"
 	"strings"
 
 	"verifharness/internal/coqfmt"
@@ -158,6 +160,25 @@ func ModelType(t types.Type) (string, error) {
 				return "TInts", nil
 			}
 		}
+	case *types.Array:
+		// an array of integers keeps its elements in a list, like a slice (kind KArr)
+		if b, ok := u.Elem().Underlying().(*types.Basic); ok && b.Info()&types.IsInteger != 0 && b.Kind() != types.Byte && b.Kind() != types.Uint8 {
+			return "TInts", nil
+		}
+	case *types.Pointer:
+		// a pointer to an array of integers
+		if arr, ok := u.Elem().Underlying().(*types.Array); ok {
+			if b, ok := arr.Elem().Underlying().(*types.Basic); ok && b.Info()&types.IsInteger != 0 && b.Kind() != types.Byte && b.Kind() != types.Uint8 {
+				return "TPArr", nil
+			}
+		}
+	case *types.Map:
+		// map[int]string
+		kb, ok1 := u.Key().Underlying().(*types.Basic)
+		vb, ok2 := u.Elem().Underlying().(*types.Basic)
+		if ok1 && ok2 && kb.Info()&types.IsInteger != 0 && vb.Info()&types.IsString != 0 {
+			return "TMapIS", nil
+		}
 	case *types.Struct:
 		if n, ok := t.(*types.Named); ok && n.Obj().Pkg() != nil && n.Obj().Pkg().Path() == "time" && n.Obj().Name() == "Time" {
 			return "TTime", nil
@@ -166,15 +187,70 @@ func ModelType(t types.Type) (string, error) {
 	return "", fmt.Errorf("type %s is outside the fragment", t)
 }
 
+// Kind is the model's vkind of a declared type: KPlain (predeclared / type literal), KDef name, KArr.
+func Kind(t types.Type) string {
+	if _, ok := t.Underlying().(*types.Array); ok {
+		return "KArr"
+	}
+	if n, ok := t.(*types.Named); ok && !(n.Obj().Pkg() != nil && n.Obj().Pkg().Path() == "time") {
+		return "(KDef " + coqfmt.Str(n.Obj().Name()) + ")"
+	}
+	return "KPlain"
+}
+
+// ConstValue renders a go/types constant as a Model_Expr value.
+func ConstValue(v constant.Value, t types.Type) (string, error) {
+	mt, err := ModelType(t)
+	if err != nil {
+		return "", err
+	}
+	switch mt {
+	case "TBool":
+		if v.Kind() == constant.Bool {
+			return fmt.Sprintf("(VBool %v)", constant.BoolVal(v)), nil
+		}
+	case "TInt":
+		if i := constant.ToInt(v); i.Kind() == constant.Int {
+			if bi, ok := constant.Val(i).(*big.Int); ok {
+				return "(VInt (" + bi.String() + ")%Z)", nil
+			}
+			if i64, ok := constant.Int64Val(i); ok {
+				return fmt.Sprintf("(VInt (%d)%%Z)", i64), nil
+			}
+		}
+	case "TFloat":
+		f := constant.ToFloat(v)
+		if f.Kind() == constant.Int || f.Kind() == constant.Float {
+			num, den := constant.Num(f), constant.Denom(f)
+			if num.Kind() == constant.Int && den.Kind() == constant.Int {
+				return "(VFloat (FFin (QArith_base.Qmake (" + num.ExactString() + ")%Z (" + den.ExactString() + ")%positive)))", nil
+			}
+		}
+	case "TString":
+		if v.Kind() == constant.String {
+			return "(VStr " + coqfmt.Str(constant.StringVal(v)) + ")", nil
+		}
+	}
+	return "", fmt.Errorf("constant %s of type %s", v, t)
+}
+
 var binops = map[token.Token]string{
 	token.ADD: "OAdd", token.SUB: "OSub", token.MUL: "OMul", token.QUO: "OQuo", token.REM: "ORem",
 	token.EQL: "OEq", token.NEQ: "ONe", token.LSS: "OLt", token.LEQ: "OLe", token.GTR: "OGt", token.GEQ: "OGe",
 	token.LAND: "OLAnd", token.LOR: "OLOr",
+	token.AND: "OAnd", token.OR: "OOr", token.XOR: "OXor", token.SHL: "OShl", token.SHR: "OShr", token.AND_NOT: "OAndNot",
 }
 
 var pkgPrims = map[string]string{
 	"strings.Index": "PStrIndex", "strings.Contains": "PStrContains", "strings.Compare": "PStrCompare",
 	"bytes.Equal": "PBytesEqual",
+	"strings.HasPrefix": "PStrHasPrefix", "strings.HasSuffix": "PStrHasSuffix", "strings.LastIndex": "PStrLastIndex",
+	"strings.EqualFold": "PStrEqualFold", "strings.ToLower": "PStrToLower", "strings.ToUpper": "PStrToUpper",
+	"strings.IndexAny": "PStrIndexAny", "strings.ContainsAny": "PStrContainsAny",
+	"strings.Replace": "PStrReplace", "strings.ReplaceAll": "PStrReplaceAll",
+	"bytes.Index": "PBytesIndex", "bytes.Contains": "PBytesContains", "bytes.Compare": "PBytesCompare",
+	"bytes.HasPrefix": "PBytesHasPrefix", "bytes.HasSuffix": "PBytesHasSuffix", "bytes.LastIndex": "PBytesLastIndex",
+	"bytes.EqualFold": "PBytesEqualFold", "bytes.Replace": "PBytesReplace", "bytes.ReplaceAll": "PBytesReplaceAll",
 }
 
 var methodPrims = map[string]string{"Unix": "PUnix", "UnixNano": "PUnixNano", "UnixMilli": "PUnixMilli", "UnixMicro": "PUnixMicro"}
@@ -196,6 +272,26 @@ func (c *Conv) Expr(e ast.Expr) (string, error) {
 	switch e := e.(type) {
 	case *ast.Ident:
 		obj := c.Info.ObjectOf(e)
+		if co, ok := obj.(*types.Const); ok {
+			// a named constant (true, false, const c = 5): the value go/types computed
+			ct := co.Type()
+			if isUntyped(ct) {
+				if tt, err := c.TypeOf(e); err == nil {
+					v, err := constValueAt(co.Val(), tt)
+					if err != nil {
+						return "", err
+					}
+					c.Stats["EConst"]++
+					return fmt.Sprintf("(EConst %s %s)", coqfmt.Str(e.Name), v), nil
+				}
+			}
+			v, err := ConstValue(co.Val(), ct)
+			if err != nil {
+				return "", err
+			}
+			c.Stats["EConst"]++
+			return fmt.Sprintf("(EConst %s %s)", coqfmt.Str(e.Name), v), nil
+		}
 		if _, ok := obj.(*types.Var); !ok {
 			return "", fmt.Errorf("identifier %s is not a variable", e.Name)
 		}
@@ -203,8 +299,40 @@ func (c *Conv) Expr(e ast.Expr) (string, error) {
 		if err != nil {
 			return "", err
 		}
+		if k := Kind(obj.Type()); k != "KPlain" {
+			c.Stats["EVarK"]++
+			return fmt.Sprintf("(EVarK %s %s %s)", coqfmt.Str(e.Name), k, t), nil
+		}
 		c.Stats["EIdent"]++
 		return fmt.Sprintf("(EIdent %s %s)", coqfmt.Str(e.Name), t), nil
+	case *ast.SelectorExpr:
+		// x.f with x a pointer-to-struct variable and f a field
+		id, ok := e.X.(*ast.Ident)
+		if !ok {
+			return "", fmt.Errorf("selector on %T", e.X)
+		}
+		xv, ok := c.Info.ObjectOf(id).(*types.Var)
+		if !ok {
+			return "", fmt.Errorf("selector on %s", id.Name)
+		}
+		pt, ok := xv.Type().Underlying().(*types.Pointer)
+		if !ok {
+			return "", fmt.Errorf("selector on a non-pointer")
+		}
+		if _, ok := pt.Elem().Underlying().(*types.Struct); !ok {
+			return "", fmt.Errorf("selector on a pointer to a non-struct")
+		}
+		sel := c.Info.Selections[e]
+		if sel == nil || sel.Kind() != types.FieldVal || len(sel.Index()) != 1 {
+			return "", fmt.Errorf("selector %s is not a direct field", e.Sel.Name)
+		}
+		ft := sel.Obj().Type()
+		t, err := ModelType(ft)
+		if err != nil {
+			return "", err
+		}
+		c.Stats["ESel"]++
+		return fmt.Sprintf("(ESel %s %s %s %s)", coqfmt.Str(id.Name), coqfmt.Str(e.Sel.Name), Kind(ft), t), nil
 	case *ast.BasicLit:
 		k := ""
 		switch e.Kind {
@@ -396,4 +524,222 @@ func (c *Conv) FloatTypesAgreeAt(root ast.Expr) bool {
 		return ok
 	})
 	return ok
+}
+
+// constValueAt renders an untyped constant at the model type its context gives it.
+func constValueAt(v constant.Value, mt string) (string, error) {
+	switch mt {
+	case "TBool":
+		return ConstValue(v, types.Typ[types.Bool])
+	case "TInt":
+		return ConstValue(v, types.Typ[types.Int])
+	case "TFloat":
+		return ConstValue(v, types.Typ[types.Float64])
+	case "TString":
+		return ConstValue(v, types.Typ[types.String])
+	}
+	return "", fmt.Errorf("untyped constant at %s", mt)
+}
+
+// Lval converts an assignable operand to a Model_Stmt lval.
+func (c *Conv) Lval(e ast.Expr) (string, error) {
+	switch e := e.(type) {
+	case *ast.Ident:
+		v, ok := c.Info.ObjectOf(e).(*types.Var)
+		if !ok {
+			return "", fmt.Errorf("left operand %s is not a variable", e.Name)
+		}
+		t, err := ModelType(v.Type())
+		if err != nil {
+			return "", err
+		}
+		if k := Kind(v.Type()); k != "KPlain" {
+			return fmt.Sprintf("(LVarK %s %s %s)", coqfmt.Str(e.Name), k, t), nil
+		}
+		return fmt.Sprintf("(LVar %s %s)", coqfmt.Str(e.Name), t), nil
+	case *ast.IndexExpr:
+		id, ok := e.X.(*ast.Ident)
+		if !ok {
+			return "", fmt.Errorf("indexed left operand %T", e.X)
+		}
+		v, ok := c.Info.ObjectOf(id).(*types.Var)
+		if !ok {
+			return "", fmt.Errorf("indexed left operand %s", id.Name)
+		}
+		if t, err := ModelType(v.Type()); err != nil || t != "TInts" {
+			return "", fmt.Errorf("indexed left operand of type %s", v.Type())
+		}
+		i, err := c.Expr(e.Index)
+		if err != nil {
+			return "", err
+		}
+		if k := Kind(v.Type()); k != "KPlain" {
+			return fmt.Sprintf("(LIdxK %s %s %s)", coqfmt.Str(id.Name), k, i), nil
+		}
+		return fmt.Sprintf("(LIdx %s %s)", coqfmt.Str(id.Name), i), nil
+	case *ast.SelectorExpr:
+		x, err := c.Expr(e)
+		if err != nil {
+			return "", err
+		}
+		if !strings.HasPrefix(x, "(ESel ") {
+			return "", fmt.Errorf("selector left operand")
+		}
+		return "(LSel " + strings.TrimPrefix(x, "(ESel "), nil
+	}
+	return "", fmt.Errorf("left operand %T is outside the fragment", e)
+}
+
+var assignOps = map[token.Token]string{
+	token.ADD_ASSIGN: "OAdd", token.SUB_ASSIGN: "OSub", token.MUL_ASSIGN: "OMul", token.QUO_ASSIGN: "OQuo", token.REM_ASSIGN: "ORem",
+	token.AND_ASSIGN: "OAnd", token.OR_ASSIGN: "OOr", token.XOR_ASSIGN: "OXor", token.SHL_ASSIGN: "OShl", token.SHR_ASSIGN: "OShr",
+	token.AND_NOT_ASSIGN: "OAndNot",
+}
+
+// Stmts converts a statement list to a Coq list of Model_Stmt terms.
+func (c *Conv) Stmts(l []ast.Stmt) (string, error) {
+	parts := make([]string, len(l))
+	for i, s := range l {
+		t, err := c.Stmt(s)
+		if err != nil {
+			return "", err
+		}
+		parts[i] = t
+	}
+	return "[" + strings.Join(parts, "; ") + "]", nil
+}
+
+func (c *Conv) seq(l []ast.Stmt) (string, error) {
+	if len(l) == 0 {
+		return "SSkip", nil
+	}
+	h, err := c.Stmt(l[0])
+	if err != nil {
+		return "", err
+	}
+	if len(l) == 1 {
+		return h, nil
+	}
+	r, err := c.seq(l[1:])
+	if err != nil {
+		return "", err
+	}
+	return "(SSeq " + h + " " + r + ")", nil
+}
+
+// Stmt converts one statement; an error means it is outside Model_Stmt's fragment.
+func (c *Conv) Stmt(s ast.Stmt) (string, error) {
+	switch s := s.(type) {
+	case *ast.AssignStmt:
+		switch {
+		case s.Tok == token.ASSIGN && len(s.Lhs) == 1 && len(s.Rhs) == 1:
+			l, err := c.Lval(s.Lhs[0])
+			if err != nil {
+				return "", err
+			}
+			e, err := c.Expr(s.Rhs[0])
+			if err != nil {
+				return "", err
+			}
+			c.Stats["SAssign"]++
+			return "(SAssign " + l + " " + e + ")", nil
+		case s.Tok == token.ASSIGN && len(s.Lhs) == 2 && len(s.Rhs) == 2:
+			l1, err := c.Lval(s.Lhs[0])
+			if err != nil {
+				return "", err
+			}
+			l2, err := c.Lval(s.Lhs[1])
+			if err != nil {
+				return "", err
+			}
+			e1, err := c.Expr(s.Rhs[0])
+			if err != nil {
+				return "", err
+			}
+			e2, err := c.Expr(s.Rhs[1])
+			if err != nil {
+				return "", err
+			}
+			c.Stats["SAssign2"]++
+			return "(SAssign2 " + l1 + " " + l2 + " " + e1 + " " + e2 + ")", nil
+		case s.Tok == token.DEFINE && len(s.Lhs) == 1 && len(s.Rhs) == 1:
+			id, ok := s.Lhs[0].(*ast.Ident)
+			if !ok {
+				return "", fmt.Errorf("define of %T", s.Lhs[0])
+			}
+			v, ok := c.Info.ObjectOf(id).(*types.Var)
+			if !ok {
+				return "", fmt.Errorf("define of %s", id.Name)
+			}
+			t, err := ModelType(v.Type())
+			if err != nil {
+				return "", err
+			}
+			if Kind(v.Type()) != "KPlain" {
+				return "", fmt.Errorf("define of a variable of a defined type")
+			}
+			e, err := c.Expr(s.Rhs[0])
+			if err != nil {
+				return "", err
+			}
+			c.Stats["SDefine"]++
+			return fmt.Sprintf("(SDefine %s %s %s)", coqfmt.Str(id.Name), t, e), nil
+		}
+		if op, ok := assignOps[s.Tok]; ok && len(s.Lhs) == 1 && len(s.Rhs) == 1 {
+			l, err := c.Lval(s.Lhs[0])
+			if err != nil {
+				return "", err
+			}
+			e, err := c.Expr(s.Rhs[0])
+			if err != nil {
+				return "", err
+			}
+			c.Stats["SAssignOp"]++
+			return "(SAssignOp " + l + " " + op + " " + e + ")", nil
+		}
+		return "", fmt.Errorf("assignment form outside the fragment")
+	case *ast.IncDecStmt:
+		l, err := c.Lval(s.X)
+		if err != nil {
+			return "", err
+		}
+		c.Stats["SIncDec"]++
+		return fmt.Sprintf("(SIncDec %s %v)", l, s.Tok == token.INC), nil
+	case *ast.SwitchStmt:
+		if s.Init != nil {
+			return "", fmt.Errorf("switch with init statement")
+		}
+		tag := "None"
+		if s.Tag != nil {
+			t, err := c.Expr(s.Tag)
+			if err != nil {
+				return "", err
+			}
+			tag = "(Some " + t + ")"
+		}
+		dflt := "SSkip"
+		var cases []string
+		for _, st := range s.Body.List {
+			cc := st.(*ast.CaseClause)
+			body, err := c.seq(cc.Body)
+			if err != nil {
+				return "", err
+			}
+			if cc.List == nil {
+				dflt = body
+				continue
+			}
+			if len(cc.List) != 1 {
+				return "", fmt.Errorf("case clause with %d expressions", len(cc.List))
+			}
+			e, err := c.Expr(cc.List[0])
+			if err != nil {
+				return "", err
+			}
+			cases = append(cases, "("+e+", "+body+")")
+		}
+		c.Stats["SSwitch"]++
+		return "(SSwitch " + tag + " [" + strings.Join(cases, "; ") + "] " + dflt + ")", nil
+	}
+	return "", fmt.Errorf("statement %T is outside the fragment", s)
 }
